@@ -415,7 +415,12 @@ def _havoc_and_assume(ex: Exec, c, fi, env, call_heap, known, raising: str | Non
         raise Unsupported("pure context calls a function with a frame")
     fresh_base = ex.alloc
     for mid, mname in mods:
-        ex.check_frame(mid, mname, f"call {fi.qualname.split(':')[1]}")
+        if callable(mid):
+            o = z3.Int("o!fr")
+            g = z3.ForAll([o], z3.Implies(mid(o), ex.frame_ok(o, mname)))
+            ex.check(g, "frame", f"call {fi.qualname.split(':')[1]}:{mname}")
+        else:
+            ex.check_frame(mid, mname, f"call {fi.qualname.split(':')[1]}")
     if mods:
         evno = len(ex.events)
 
@@ -424,8 +429,13 @@ def _havoc_and_assume(ex: Exec, c, fi, env, call_heap, known, raising: str | Non
                 return arr
             for k, (mid, mname) in enumerate(mods):
                 if mod_covers(mname, name):
-                    fr = z3.Const(f"hv{evno}_{k}_{name.replace(':', '_')}", S.heap_sort(name).range())
-                    arr = z3.Store(arr, mid, fr)
+                    if callable(mid):
+                        o = z3.Int("o!hv")
+                        frs = z3.Const(f"hv{evno}_{k}_{name.replace(':', '_')}", S.heap_sort(name))
+                        arr = z3.Lambda([o], z3.If(mid(o), z3.Select(frs, o), z3.Select(arr, o)))
+                    else:
+                        fr = z3.Const(f"hv{evno}_{k}_{name.replace(':', '_')}", S.heap_sort(name).range())
+                        arr = z3.Store(arr, mid, fr)
             return arr
 
         ex.add_event(ev)
